@@ -54,8 +54,11 @@ C09Model(el, kinds) ==
      [q \in 1..Len(el) |-> Ed(el[q][1], el[q][2], WeightAt(q), el[q][3])])
 (* known finding D36 (pinned in the harness): without vectorisation two delayed edges between the same pair of
    variables fail loudly; that class is kept out of the enumeration *)
-ParallelDelayed(el) == \E p, q \in 1..Len(el) : p < q /\ el[p][1] = el[q][1] /\ el[p][2] = el[q][2]
-                                                /\ el[p][3] > 0 /\ el[q][3] > 0
+ParallelDelayed(el) ==
+  \/ \E p, q \in 1..Len(el) : p < q /\ el[p][1] = el[q][1] /\ el[p][2] = el[q][2] /\ el[p][3] > 0 /\ el[q][3] > 0
+  \* ... or two undelayed edges of one pair that ride on the ring buffer of a delayed sibling of the same source (D06 + D36)
+  \/ \E p, q, r \in 1..Len(el) : p < q /\ el[p][1] = el[q][1] /\ el[p][2] = el[q][2] /\ el[p][3] = 0 /\ el[q][3] = 0
+                                  /\ el[r][1] = el[p][1] /\ el[r][3] > 1
 C09Cases(len, lags, steps, solvers, kindsets) ==
   { cs \in { [m |-> C09Model(el, ks), cfg |-> Cfg(steps, 1, 0, sv, ve)] :
                el \in { el \in EdgeLists(len, lags, {1, 2}, {3, 4}) : ~ParallelDelayed(el) },
